@@ -378,12 +378,12 @@ func (a *BigInt) M__ipow__(other, modulus Object) (Object, error) {
 
 func (a *BigInt) M__lshift__(other Object) (Object, error) {
 	if b, ok := ConvertToBigInt(other); ok {
+		if (*big.Int)(b).Sign() < 0 {
+			return nil, negativeShiftCount
+		}
 		bb, err := b.GoInt()
 		if err != nil {
 			return nil, err
-		}
-		if bb < 0 {
-			return nil, negativeShiftCount
 		}
 		return (*BigInt)(new(big.Int).Lsh((*big.Int)(a), uint(bb))).MaybeInt(), nil
 	}
@@ -392,12 +392,12 @@ func (a *BigInt) M__lshift__(other Object) (Object, error) {
 
 func (a *BigInt) M__rlshift__(other Object) (Object, error) {
 	if b, ok := ConvertToBigInt(other); ok {
+		if (*big.Int)(a).Sign() < 0 {
+			return nil, negativeShiftCount
+		}
 		aa, err := a.GoInt()
 		if err != nil {
 			return nil, err
-		}
-		if aa < 0 {
-			return nil, negativeShiftCount
 		}
 		return (*BigInt)(new(big.Int).Lsh((*big.Int)(b), uint(aa))).MaybeInt(), nil
 	}
@@ -410,12 +410,16 @@ func (a *BigInt) M__ilshift__(other Object) (Object, error) {
 
 func (a *BigInt) M__rshift__(other Object) (Object, error) {
 	if b, ok := ConvertToBigInt(other); ok {
+		if (*big.Int)(b).Sign() < 0 {
+			return nil, negativeShiftCount
+		}
 		bb, err := b.GoInt()
 		if err != nil {
-			return nil, err
-		}
-		if bb < 0 {
-			return nil, negativeShiftCount
+			// every bit is shifted out
+			if (*big.Int)(a).Sign() < 0 {
+				return Int(-1), nil
+			}
+			return Int(0), nil
 		}
 		return (*BigInt)(new(big.Int).Rsh((*big.Int)(a), uint(bb))).MaybeInt(), nil
 	}
@@ -424,12 +428,16 @@ func (a *BigInt) M__rshift__(other Object) (Object, error) {
 
 func (a *BigInt) M__rrshift__(other Object) (Object, error) {
 	if b, ok := ConvertToBigInt(other); ok {
+		if (*big.Int)(a).Sign() < 0 {
+			return nil, negativeShiftCount
+		}
 		aa, err := a.GoInt()
 		if err != nil {
-			return nil, err
-		}
-		if aa < 0 {
-			return nil, negativeShiftCount
+			// every bit is shifted out
+			if (*big.Int)(b).Sign() < 0 {
+				return Int(-1), nil
+			}
+			return Int(0), nil
 		}
 		return (*BigInt)(new(big.Int).Rsh((*big.Int)(b), uint(aa))).MaybeInt(), nil
 	}
